@@ -322,6 +322,7 @@ SPEC = PropSpec(
     title="Integer and float fields decode correctly at every size, offset and byte order",
     check=check,
     floors={"R4.int": 6, "R4.float": 14, "R4.tab": 4, "R4.xml": 9, "R4.cls": 12},
+    fallback={"R4.tab": ("R4.float",)},
     explanation=("Decision tables by abstract interpretation of the numeric decoders against the checker's reference: "
                  "integers for 18 widths (thorough: every width 1..65 plus 72/96/128) x three encodings x both byte "
                  "orders (whole-byte widths) x bit offsets x seven boundary bit patterns (zeros, ones, sign bit only, "
